@@ -146,8 +146,11 @@ def _run_script(M, m, co, case, out, rep):
             name = name[4:]
         a = [rep(x) if isinstance(x, int) and not isinstance(x, bool) else x for x in a]
         try:
-            if name == "edge":
-                e, order = a
+            if name in ("edge", "edge_v"):
+                if name == "edge_v":
+                    e, order = co.edge_id(a[0], a[1]), a[2]
+                else:
+                    e, order = a
                 if order == "cf":
                     cs = co.edge_to_cell(e)
                     fs = co.edge_to_face(e)
